@@ -3,6 +3,17 @@
 //! This module provides different algorithms for dynamically adjusting
 //! concurrency limits based on observed latency and error rates.
 
+#[cfg(feature = "verif-hooks")]
+#[allow(unused_imports)]
+mod std {
+    pub use ::std::*;
+    pub mod sync {
+        pub use ::std::sync::*;
+        pub mod atomic {
+            pub use ::tower_resilience_core::verif::atomic::*;
+        }
+    }
+}
 use std::sync::atomic::{AtomicU64, AtomicUsize, Ordering};
 use std::time::Duration;
 use tower_resilience_core::aimd::{AimdConfig, AimdController};
